@@ -5,11 +5,25 @@ import (
 	"math";
 )
 
+// The kernels load their operands with movaps / memory-operand subps and mulps,
+// which fault on addresses that are not 16-byte aligned. Go only guarantees
+// 4-byte alignment for []float32 (e.g. a 24-byte allocation, a sub-slice).
+func aligned(a, b []float32) bool {
+	return uintptr(unsafe.Pointer(&a[0]))&15 == 0 && uintptr(unsafe.Pointer(&b[0]))&15 == 0
+}
+
 //go:noescape
 func _euclidean_distance_squared(len, a, b, result unsafe.Pointer)
 
 func EuclideanDistance(a, b []float32) float32 {
 	var result float32
+	if !aligned(a, b) {
+		for i := range a {
+			diff := a[i] - b[i]
+			result += diff * diff
+		}
+		return float32(math.Sqrt(float64(result)))
+	}
 	_euclidean_distance_squared(unsafe.Pointer(uintptr(len(a))), unsafe.Pointer(&a[0]), unsafe.Pointer(&b[0]), unsafe.Pointer(&result))
 	return float32(math.Sqrt(float64(result)))
 }
@@ -19,6 +33,16 @@ func _manhattan_distance(len, a, b, result unsafe.Pointer)
 
 func ManhattanDistance(a, b []float32) float32 {
 	var result float32
+	if !aligned(a, b) {
+		for i := range a {
+			diff := a[i] - b[i]
+			if diff < 0 {
+				diff = -diff
+			}
+			result += diff
+		}
+		return result
+	}
 	_manhattan_distance(unsafe.Pointer(uintptr(len(a))), unsafe.Pointer(&a[0]), unsafe.Pointer(&b[0]), unsafe.Pointer(&result))
 	return result
 }
@@ -29,6 +53,16 @@ func _cosine_similarity_dot_norm(len, a, b, dot, norm_squared unsafe.Pointer)
 func CosineDistance(a, b []float32) float32 {
 	var dot float32
 	var norm_squared float32
+	if !aligned(a, b) {
+		var norm_a, norm_b float32
+		for i := range a {
+			dot += a[i] * b[i]
+			norm_a += a[i] * a[i]
+			norm_b += b[i] * b[i]
+		}
+		norm_squared = norm_a * norm_b
+		return 1.0 - dot / float32(math.Sqrt(float64(norm_squared)))
+	}
 	_cosine_similarity_dot_norm(unsafe.Pointer(uintptr(len(a))), unsafe.Pointer(&a[0]), unsafe.Pointer(&b[0]), unsafe.Pointer(&dot), unsafe.Pointer(&norm_squared))
 
 	return 1.0 - dot / float32(math.Sqrt(float64(norm_squared)))
